@@ -170,9 +170,11 @@ def obs_selftest(ctx, sd, module, cfg, tag, trace, mutate, what):
         ctx.cov(binding_selftests_rejected=1)
 
 
-def vacuity(ctx, r, what):
-    if r.coverage_zero:
-        ctx.broken.append("vacuity guard (%s): actions never taken: %s" % (what, ", ".join(sorted(set(r.coverage_zero)))))
+def vacuity(ctx, r, what, no_handles=False):
+    # configurations with MaxHandles = 0 cannot take the account-handle actions (Load / SaveH): not a vacuity
+    zero = set(r.coverage_zero) - ({"HandleActs", "Load", "SaveH"} if no_handles else set())
+    if zero:
+        ctx.broken.append("vacuity guard (%s): actions never taken: %s" % (what, ", ".join(sorted(zero))))
 
 
 # ------------------------------------------------------------------------------------------------ C06 / C07
@@ -221,7 +223,7 @@ def run_accounts(ctx):
         acc_cfg(sd, name, rest="VIEW cvars\nCONSTRAINT DepthBound\n" + ACC_INV, **kw)
         r = ctx.tlc(sd, "MC_Accounts", name, timeout=1500, coverage=not qk)
         if not qk:
-            vacuity(ctx, r, name)
+            vacuity(ctx, r, name, no_handles=not kw.get("handles"))
 
     # ---- R1 on the code as it exists: TLC must find the counterexample; it is replayed on the real code
     if c06:
